@@ -687,7 +687,7 @@ private:
         std::ostringstream oss;
         oss << "STATUS:" << (success ? "OK" : "ERROR") << "\n";
         for (const auto& [key, value] : fields) {
-            oss << key << ':' << value << "\n";
+            oss << key << ':' << escape_control_value(value) << "\n";
         }
         oss << "\n";
         const auto response = oss.str();
